@@ -5,7 +5,7 @@
    execution after every action; `no_err err_Cxx m` = the monitor reported no error of this property's class;
    `no_raise ls` = no request ended in an exception. *)
 From Coq Require Import ZArith List Bool.
-From CS Require Ops RevConv RevBridge4 RevolveRun Refuted DiskRun DiskBridge3 HRevRun HRevTop GenLang GenBasic GenLang2 GenTwo.
+From CS Require Ops RevConv RevBridge4 RevolveRun Refuted DiskRun DiskBridge3 HRevRun HRevTop GenLang GenBasic GenLang2 GenTwo GenLang3 GenMulti.
 From CS Require Import Actions NAdvance Multistage Exec Sched RunFacts Projections BasicInv MultistageRun AllocTotal TLBridge MixBridge.
 Import ListNotations.
 Open Scope Z_scope.
@@ -123,4 +123,17 @@ Theorem C08_twolevel_source_is_model :
 Proof. exact (@GenTwo.two_from_start). Qed.
 Print Assumptions C08_twolevel_source_is_model.
 End M_C08_twolevel_source_is_model.
+
+(* THE MODEL OF MultistageCheckpointSchedule IS THE SOURCE: GenMulti.multi_prog_model is the program (generator language GenLang3) that harness/translate.py produces from MultistageCheckpointSchedule._iterator, the nested helper write(n) inlined at its two call sites; Gen/MultistageGen.v re-translates the current source on every run and proves it equal to that term by conversion.  For every parameter tuple the constructor accepts, resuming that program request by request gives under EVERY history of next() and finalize(k) calls exactly the observations (outcome, n, r, max_n, is_exhausted) of the schedule object of Model/Sched.v (srun_ops: Sched.next / Sched.finalize on the Multistage machine) -- so the Multistage theorems of this file, stated on the extracted model, are theorems about the translated source.  (The unit total self._snapshots_in_ram + self._snapshots_on_disk is read as the length of the label tuple self._storage, which is what __init__ recounts them from; the allocation of the labels, allocate_snapshots, is tied by the correspondence.) *)
+Module M_C08_multistage_source_is_model.
+Import GenMulti.
+Theorem C08_multistage_source_is_model :
+  forall (n ram disk : Z) (tj : NAdvance.traj) (ops : list Online.op) (s : Sched.sched),
+         Sched.construct (Sched.PMulti n ram disk tj) = Actions.Ok s ->
+         exists c : Multistage.cfg,
+           Multistage.construct n ram disk tj = Actions.Ok c /\
+           grun_ops (cfg3 c) [GenLang3.FS multi_prog_model] (g_init n) ops = srun_ops s ops.
+Proof. exact (@GenMulti.multi_from_start). Qed.
+Print Assumptions C08_multistage_source_is_model.
+End M_C08_multistage_source_is_model.
 
